@@ -322,6 +322,10 @@ func runC08(c *Ctx) {
 	R.Rule("clone-detached", "Clone's backing slice is freshly allocated with the same length and dimensions", 1)
 	R.Rule("accessors", "Get returns the cell at (x,y) and Set stores the value there (through the unchecked helpers, called once with the method's own arguments); New2DFilled fills the new slice with the value; every panic path rejects a coordinate that really is out of range (the guards are exact)", 5)
 
+	R.Rule("guards-complete", "every returning path of an exported method has bounded each integer coordinate parameter from below (>= 0) and above (< a dimension)", 5)
+	R.Rule("span-exact", "Row(y) = slice[y*W : (y+1)*W]; RowSpan(x1,x2,y) = slice[x1+y*W : x2+1+y*W]", 2)
+	R.Rule("jagged-ctor", "New2DFromJagged = New2D(width, height) + copy(Row(y), jagged[y]) for y < height", 1)
+	R.Rule("string-cells", "String prints cell (x,y) exactly once for every 0<=y<height, 0<=x<width", 1)
 	x := &c08{c: c, ctor: map[string][3]int{}}
 	x.fW = c.P.FieldOf("arrays", "Array2D", "width")
 	x.fH = c.P.FieldOf("arrays", "Array2D", "height")
@@ -826,6 +830,7 @@ func runC08(c *Ctx) {
 			}
 		}
 	}
+	c08Extra(x, funcs, allPaths)
 	// ---- fill-rectangle
 	if fi := c.fn("fill-rectangle", "arrays.(Array2D).Fill"); fi != nil {
 		ps := allPaths[fi]
@@ -965,5 +970,243 @@ func runC08(c *Ctx) {
 			}
 		}
 		R.Decide(ok, "clone-detached", fi.Name, "fresh", c.pos(fi), "fresh backing slice of the same length, contents copied, dimensions kept", why)
+	}
+}
+
+// c08Extra: rules added after the mutation sweep - guards that are complete (not only exact), the exact windows of
+// Row/RowSpan, the constructor from jagged rows, and String as one print per cell.
+func c08Extra(x *c08, funcs []*FuncInfo, allPaths map[*FuncInfo][]*Path) {
+	c := x.c
+	R := c.R
+	isExported := func(fi *FuncInfo) bool { return ast.IsExported(fi.Obj.Name()) }
+	// ---- guards-complete
+	for _, fi := range funcs {
+		sig := fi.Obj.Type().(*types.Signature)
+		if !isExported(fi) || sig.Recv() == nil {
+			continue
+		}
+		owner := paramOf(fi, 0)
+		Wp := ToPoly(&Term{Op: "field", Args: []*Term{owner}, Obj: x.fW, Typ: types.Typ[types.Int]})
+		Hp := ToPoly(&Term{Op: "field", Args: []*Term{owner}, Obj: x.fH, Typ: types.Typ[types.Int]})
+		var ints []int
+		for pi := 1; pi < len(fi.SSA.Params); pi++ {
+			if isIntegerType(fi.SSA.Params[pi].Type()) {
+				ints = append(ints, pi)
+			}
+		}
+		if len(ints) == 0 {
+			continue
+		}
+		ok, why := true, ""
+		nret := 0
+		for _, p := range allPaths[fi] {
+			if p.End != EndReturn {
+				continue
+			}
+			nret++
+			for _, pi := range ints {
+				q := ToPoly(paramOf(fi, pi))
+				lo, hi := false, false
+				for _, cd := range p.Conds {
+					pl, kind, isInt := cd.Rel().IntNorm()
+					if !isInt || kind != ">" {
+						continue
+					}
+					if k, isC := q.Add(polyConst(1), 1).Add(pl, -1).IsConst(); isC && k >= 0 { // pl = q + 1 - k
+						lo = true
+					}
+					for _, D := range []*Poly{Wp, Hp} {
+						if k, isC := D.Add(q, -1).Add(pl, -1).IsConst(); isC && k >= 0 { // pl = D - q - k
+							hi = true
+						}
+					}
+				}
+				if !lo || !hi {
+					ok, why = false, fmt.Sprintf("a path (%s) proceeds without having established 0 <= %s < dimension: an out-of-range coordinate is accepted", p.CondString(), fi.SSA.Params[pi].Name())
+				}
+			}
+		}
+		if nret == 0 {
+			continue
+		}
+		o := R.Decide(ok, "guards-complete", fi.Name, "coordinates", c.pos(fi), fmt.Sprintf("every returning path has bounded its %d coordinate parameters from both sides", len(ints)), why)
+		if !ok {
+			o.Breaks = "a coordinate outside the bounds does not panic: it reads or writes another row's cell (or past the slice)"
+		}
+	}
+	// ---- span-exact
+	for _, row := range []struct {
+		name   string
+		lo, hi func(fi *FuncInfo, W *Poly) (*Poly, *Poly)
+	}{
+		{"arrays.(Array2D).Row", func(fi *FuncInfo, W *Poly) (*Poly, *Poly) {
+			y := ToPoly(paramOf(fi, 1))
+			return y.Mul(W), y.Mul(W).Add(W, 1)
+		}, nil},
+		{"arrays.(Array2D).RowSpan", func(fi *FuncInfo, W *Poly) (*Poly, *Poly) {
+			x1, x2, y := ToPoly(paramOf(fi, 1)), ToPoly(paramOf(fi, 2)), ToPoly(paramOf(fi, 3))
+			return x1.Add(y.Mul(W), 1), x2.Add(polyConst(1), 1).Add(y.Mul(W), 1)
+		}, nil},
+	} {
+		fi := c.fn("span-exact", row.name)
+		if fi == nil {
+			continue
+		}
+		owner := paramOf(fi, 0)
+		W := ToPoly(&Term{Op: "field", Args: []*Term{owner}, Obj: x.fW, Typ: types.Typ[types.Int]})
+		wantLo, wantHi := row.lo(fi, W)
+		ok, why := true, ""
+		n := 0
+		for _, p := range allPaths[fi] {
+			if p.End != EndReturn || len(p.Rets) != 1 {
+				continue
+			}
+			n++
+			r := p.Rets[0]
+			if r.Op != "slice" || len(r.Args) < 3 || !(isFieldLoad(r.Args[0], x.fS, owner)) {
+				ok, why = false, "does not return a window of the backing slice: "+r.String()
+				continue
+			}
+			lo, hi := r.Args[1], r.Args[2]
+			lop := polyConst(0)
+			if lo.Op != "none" {
+				lop = ToPoly(x.resolve(lo))
+			}
+			if hi.Op == "none" {
+				ok, why = false, "the window has no upper bound"
+				continue
+			}
+			hip := ToPoly(x.resolve(hi))
+			if !lop.Equal(wantLo) || !hip.Equal(wantHi) {
+				ok, why = false, fmt.Sprintf("the window is [%s : %s], expected [%s : %s]", lop, hip, wantLo, wantHi)
+			}
+		}
+		if n == 0 {
+			ok, why = false, "no returning path"
+		}
+		o := R.Decide(ok, "span-exact", fi.Name, "window", c.pos(fi), "returns exactly the cells asked for (inclusive of x2 / the whole row)", why)
+		if !ok {
+			o.Breaks = "the live window is one cell short or long, or lies in another row"
+		}
+	}
+	// ---- jagged-ctor
+	if fi := c.fn("jagged-ctor", "arrays.New2DFromJagged"); fi != nil {
+		ps := allPaths[fi]
+		ok, why := true, ""
+		sawCopy := false
+		for _, p := range ps {
+			var mk *Event
+			for i := range p.Events {
+				e := &p.Events[i]
+				if e.Kind == "call" && (e.Name == "arrays.New2D" || e.Name == "arrays.New2DFilled") {
+					mk = e
+				}
+			}
+			if mk == nil || len(mk.Args) < 2 || !isParam(mk.Args[0], 0) || !isParam(mk.Args[1], 1) {
+				ok, why = false, "the array is not created as New2D(width, height) from the constructor's own dimensions"
+				continue
+			}
+			if p.End == EndReturn && (len(p.Rets) != 1 || p.Rets[0].Key() != mk.Res.Key()) {
+				ok, why = false, "does not return the array it created"
+			}
+			for i := range p.Events {
+				e := &p.Events[i]
+				if e.Kind != "call" || e.Name != "builtin.copy" {
+					continue
+				}
+				sawCopy = true
+				dst, src := e.Args[0], e.Args[1]
+				good := dst.Op == "call" && dst.Sym == "arrays.(Array2D).Row" && dst.Args[0].Key() == mk.Res.Key() &&
+					(src.Op == "load" || src.Op == "index") && rootOf(src).Key() == paramOf(fi, 2).Key()
+				if good {
+					// same row index on both sides
+					var si *Term
+					if src.Op == "load" && src.Args[0].Op == "iaddr" {
+						si = src.Args[0].Args[1]
+					} else if src.Op == "index" {
+						si = src.Args[1]
+					}
+					good = si != nil && ToPoly(si).Equal(ToPoly(dst.Args[1]))
+					// and that index is below height on this path
+					below := false
+					for _, cd := range p.Conds {
+						if pl, kind, isInt := cd.Rel().IntNorm(); isInt && kind == ">" && si != nil && pl.Equal(ToPoly(paramOf(fi, 1)).Add(ToPoly(si), -1)) {
+							below = true
+						}
+					}
+					if good && !below {
+						good = false
+					}
+				}
+				if !good {
+					ok, why = false, "a jagged row is not copied into the row of the same index (below height): "+e.String()
+				}
+			}
+		}
+		if ok && !sawCopy {
+			ok, why = false, "the jagged rows are never copied"
+		}
+		R.Decide(ok, "jagged-ctor", fi.Name, "rows", c.pos(fi), "New2D(width, height); row y of the input copied into Row(y) for y < height", why)
+	}
+	// ---- string-cells
+	if fi := c.fn("string-cells", "arrays.(Array2D).String"); fi != nil {
+		ps := allPaths[fi]
+		owner := paramOf(fi, 0)
+		ok, why := true, ""
+		loops := findLoops(ps)
+		var xs, ys *Counted
+		for _, li := range loops {
+			ct := counted(li)
+			if ct == nil || ct.Step != 1 || ct.Op != "<" {
+				continue
+			}
+			if f, isC := ct.First.IsConst(); !isC || f != 0 {
+				continue
+			}
+			b := x.resolve(ct.Bound)
+			switch {
+			case isFieldLoad(b, x.fW, nil) || (b.Op == "field" && sameField(b.Obj, x.fW)):
+				xs = ct
+			case isFieldLoad(b, x.fH, nil) || (b.Op == "field" && sameField(b.Obj, x.fH)):
+				ys = ct
+			}
+		}
+		if xs == nil || ys == nil {
+			ok, why = false, "String is not a loop over 0 <= y < height around a loop over 0 <= x < width"
+		} else {
+			for _, p := range xs.Loop.Back {
+				n := 0
+				for i := p.LoopAt[xs.Loop.Hdr]; i < len(p.Events); i++ {
+					e := &p.Events[i]
+					if e.Kind == "call" && (strings.HasSuffix(e.Name, ".getUnchecked") || strings.HasSuffix(e.Name, "(Array2D).Get")) && len(e.Args) == 3 {
+						if ToPoly(e.Args[1]).Equal(ToPoly(xs.Idx)) && ToPoly(e.Args[2]).Equal(ToPoly(ys.Idx)) {
+							// and it is what gets printed
+							printed := false
+							for j := i; j < len(p.Events); j++ {
+								f := &p.Events[j]
+								if f.Kind == "store" && f.Addr.Op == "iaddr" && stripIface(f.Val).Key() == e.Res.Key() {
+									for k := j; k < len(p.Events); k++ {
+										g := &p.Events[k]
+										if g.Kind == "call" && strings.HasPrefix(g.Name, "fmt.Fprint") && g.Args[len(g.Args)-1].ContainsKey(f.Addr.Args[0].Key()) {
+											printed = true
+										}
+									}
+								}
+							}
+							if printed {
+								n++
+							}
+						} else {
+							ok, why = false, "a cell other than (x, y) of the two loops is read: "+e.String()
+						}
+					}
+				}
+				if n != 1 {
+					ok, why = false, fmt.Sprintf("an iteration of the inner loop prints %d cells (%s)", n, p.CondString())
+				}
+			}
+			_ = owner
+		}
+		R.Decide(ok, "string-cells", fi.Name, "cells", c.pos(fi), "for y in [0,height), x in [0,width): prints cell (x, y) exactly once", why)
 	}
 }
